@@ -613,15 +613,44 @@ func c02Reject(c *Ctx) {
 				})
 			})
 		}},
+		{"routes-wildcard-once", "parsePlugins", "the ::/0 wildcard route is given at most once", func(r rejection) bool {
+			// a "routes overlap" rejection that a pair of two wildcard stanzas can reach: the path does not
+			// exclude the wildcard for each route separately
+			if !lastIs(r, func(a an.PathAtom) bool {
+				return atomCall(".Overlaps", true)(a) && a.Cond.Args[0].IsField("Prefix") && strings.Contains(typeStr(a.Cond.Args[0].Args[0].Typ), "plugin.Route")
+			}) {
+				return false
+			}
+			for _, a := range r.atoms {
+				x, y, op, ok := effCmp(a)
+				if !ok || op != token.NEQ {
+					continue
+				}
+				if (x.IsField("Prefix") && y.Op == an.OpGlobal && y.Name == "config.autoRoute") || (y.IsField("Prefix") && x.Op == an.OpGlobal && x.Name == "config.autoRoute") {
+					return false
+				}
+			}
+			return true
+		}},
 		{"routes-overlap", "parsePlugins", "no overlapping routes (wildcard excluded)", func(r rejection) bool {
 			return bodyOnly(r, func(a an.PathAtom) bool {
 				k := filterKind(a)
 				if k == "Overlaps" || isPtrCompare(a, "*plugin.Route") {
 					return true
 				}
-				// rtN.Prefix == autoRoute
-				x, y, _, ok := effCmp(a)
-				return ok && ((x.IsField("Prefix") && y.Op == an.OpGlobal && y.Name == "config.autoRoute") || (y.IsField("Prefix") && x.Op == an.OpGlobal && x.Name == "config.autoRoute"))
+				// rtN.Prefix == autoRoute, or the "exactly one of the two is the wildcard" form
+				// (rt1.Prefix == autoRoute) != (rt2.Prefix == autoRoute)
+				isAutoCmp := func(e *an.Expr) bool {
+					if e == nil || e.Op != an.OpBin || (e.Tok != token.EQL && e.Tok != token.NEQ) {
+						return false
+					}
+					x, y := e.Args[0], e.Args[1]
+					return (x.IsField("Prefix") && y.Op == an.OpGlobal && y.Name == "config.autoRoute") || (y.IsField("Prefix") && x.Op == an.OpGlobal && x.Name == "config.autoRoute")
+				}
+				if isAutoCmp(a.Cond) {
+					return true
+				}
+				return a.Cond.Op == an.OpBin && (a.Cond.Tok == token.NEQ || a.Cond.Tok == token.EQL) && isAutoCmp(a.Cond.Args[0]) && isAutoCmp(a.Cond.Args[1])
 			}) && lastIs(r, func(a an.PathAtom) bool {
 				return atomCall(".Overlaps", true)(a) && a.Cond.Args[0].IsField("Prefix") && strings.Contains(typeStr(a.Cond.Args[0].Args[0].Typ), "plugin.Route")
 			}) && r.has(func(a an.PathAtom) bool {
